@@ -216,7 +216,8 @@ let history toks =
   Array.iter (fun (c', d, _) -> if h c' <> d then failwith "sha256 of a pool item differs") pool;
   (* index_of: the referrers indexes the model itself generated (gen_index), otherwise the JSON
      view of the pool (a decodable manifest without "manifests" decodes to the empty list) *)
-  let string_of_str (c : str) : string = String.init (List.length c) (fun i -> Char.chr (int_of_n (List.nth c i))) in
+  let string_of_str (c : str) : string =
+    let b = Buffer.create 64 in List.iter (fun x -> Buffer.add_char b (Char.chr (int_of_n x))) c; Buffer.contents b in
   let index_prefix = "{\"schemaVersion\":2,\"mediaType\":\"application/vnd.oci.image.index.v1+json\",\"manifests\":[" in
   let entry_re = Str.regexp "{\"mediaType\":\"\\([^\"]*\\)\",\"digest\":\"\\([^\"]*\\)\",\"size\":\\([0-9]+\\)}" in
   let index_of (c : str) : desc list option =
